@@ -240,7 +240,18 @@ def run(tier, seed):
                 stats["nondeterministic_bases"] += 1
                 continue
             what = f"world {v.id}: with re-deliveries of already handled events inserted, {d[1]}"
-            fails.append({"kind": "oracle", "prop": "C07", "props": ["C07"], "signature": "redelivery-changes-later-call", "what": what[:900],
+            sig = "redelivery-changes-later-call"
+            bt = [(c_, r_, fp_) for c_, r_, fp_ in b.trace if c_ != "world"]
+            tt = bt[d[0]][0].split() if d[0] < len(bt) else []
+            if len(tt) == 3 and tt[0] == "deliver" and b.events.get(int(tt[2]), {}).get("adv"):
+                # the first differing call is the delivery of a FORGED commit: whether the client rolls back for it before refusing it
+                # (open finding rollback-before-authorisation) depends on the snapshot it is compared with, and an inserted delivery
+                # may have changed which refusal comes first; the difference is that finding showing in one run and not in the other
+                fb0 = W.parse_fp(bt[d[0] - 1][2]) if d[0] > 0 else None
+                fb1 = W.parse_fp(bt[d[0]][2])
+                if fb1 is not None and any(W.parse_fp(x[2]) is not None and x[0].split()[1:2] == tt[1:2] and W.parse_fp(x[2])["epoch"] > fb1["epoch"] for x in bt[:d[0]][-40:]):
+                    sig = "rollback-before-authorisation"
+            fails.append({"kind": "oracle", "prop": "C07", "props": ["C07"], "signature": sig, "what": what[:900],
                           "replay_body": v.text(None, what[:300]) + "# --- the same script without the inserted re-deliveries ---\n" + b.text()})
     stats["hypotheses_on_the_model"] = inside_H(plans)
     return fails, stats, worlds
